@@ -193,6 +193,39 @@ pub fn run(ctx: &Ctx, rep: &mut Report) {
             }
         }
     }
+    // far beyond the protocol maximum (std / alloc only): texts of 300..2000 characters with
+    // runs of 255 / 256 / 257 / 600 identical padding characters between letters
+    if !noalloc {
+        let mut idx2 = 0u64;
+        for t in [12u8, 14] {
+            let hdr = if t == 12 { 72 } else { 40 };
+            for total in [300usize, 520, 1000, 2000] {
+                for run in [255usize, 256, 257, 600] {
+                    for pad in [AT, SP, 63u8] {
+                        if run + 2 > total {
+                            continue;
+                        }
+                        if !ctx.mine(idx2) {
+                            idx2 += 1;
+                            continue;
+                        }
+                        idx2 += 1;
+                        let b = Branch { t, len: hdr + 6 * total, name: "long-run-text", force: &[] };
+                        for start in [1usize, 0, total - run - 1] {
+                            let mut bits = fresh(&b, &mut r);
+                            for i in 0..total {
+                                let v = if i >= start && i < start + run { pad } else { 1 + (i % 26) as u8 };
+                                bits.put(hdr + 6 * i, 6, v as u64);
+                            }
+                            n += 1;
+                            rep.class(format!("t{}|long-run|pad{}|run{}", t, pad, run));
+                            gen::run_message(rep, PID, Some(13), &bits, via_for(n), b.name);
+                        }
+                    }
+                }
+            }
+        }
+    }
     rep.require("decoded");
     rep.sample(3, || {
         let mut o = J::obj();
